@@ -465,7 +465,7 @@ PROPS = {
                 level_text='complete Kani proofs of the LIMIT/OFFSET row-window arithmetic (never more rows than LIMIT, no panic for any limit/offset/length); bounded Kani check that LIMIT/OFFSET literals give an error value instead of a panic; Verus / Kani: the NULL column standing in for an unknown column has exactly as many rows as the filter keeps (BatchResult::validate would otherwise panic a worker)',
                 level_note='narrow: sqlparser, convert_to_native_expr, result assembly (BatchResult::validate) and channel delivery are not covered',
                 technique='contract-based deductive verification (Kani complete + bounded harnesses) of extracted slices',
-                explanation='U13k: loop-free harnesses over all (limit, offset, len) - complete. U21k: literals of at most 4 characters over 0-9 . e - (bounded). Everything else about query strings is outside the reach of contracts on this code base.',
+                explanation='U13k: loop-free harnesses over all (limit, offset, len) - complete. U21k: LIMIT / OFFSET literals of at most 4 characters over 0-9 . e - (bounded) and the statement list of parse_query for 0, 1, 2 statements (complete). U19 / U27k: the NULL column that stands in for an unknown column has as many rows as the filter keeps (Verus / complete Kani). Everything else about query strings is outside the reach of contracts on this code base.',
                 assumptions=[], not_covered=['sqlparser', 'convert_to_native_expr', 'BatchResult::validate', 'unknown tables / columns handling']),
     'C07': dict(level='proof', units=['U02', 'U03', 'U04k', 'U04v', 'U04d'],
                 level_text='Verus proofs of the column rebuild kernels used by compaction: ColumnBuffer append with null maps (incl. the incoming-null-map path that only compaction takes), string packing round trip, integer encode / delta / decode kernels; complete Kani proof of the width/offset choice',
@@ -476,6 +476,7 @@ PROPS = {
                 level_text='bounded only: Kani harnesses over 2-character names for the table-name cleaning steps and the decision when a directory name must carry the digest of the original name; nothing here is a proof',
                 level_note='very narrow: only "distinct table names never share files, no name can place a file outside the database directory" is touched. The column -> file routing (subpartition + BTreeMap lower_bound lookup) is NOT covered: CBMC did not finish the real std sort / BTreeMap code with String keys in 25 min even for 3 concrete names (unit U22k, kept in the thorough tier as an attempt, verdict ignored when undecided), and Verus has no specs for str ordering or BTreeMap cursors',
                 technique='bounded Kani harnesses (labelled bounded, not counted as discharged obligations) over statement / expression slices of the real sanitize_table_name',
+                explanation='U24k: two bounded Kani harnesses over slices of storage.rs sanitize_table_name - (1) the decision whether the cleaned name is used verbatim or carries the digest of the original, for all cleaned / requested names of two characters over {E,e,-,.,/,_,7,space}; (2) the cleaning steps after lower-casing, for all two-character names over the same alphabet. No obligation is discharged deductively for this property; the column -> file routing is not covered at all.',
                 assumptions=[], not_covered=['column -> sub-partition file routing', 'partition file names', 'names longer than 2 characters, non-ASCII names', 'lazy loading of sub-partitions']),
     'C13': dict(level='proof', units=['U02', 'U27k'],
                 level_text='Verus proofs: a column missing from a batch is padded with NULLs for that batch (extend_to_largest body), a column first seen late reads NULL for all earlier rows (ColumnBuffer::null + push_*), per-column append of every input representation; complete Kani proof that a column missing from a partition is given exactly the rows the WHERE clause keeps, for every filter kind',
